@@ -81,6 +81,7 @@ func TestCheck(t *testing.T) {
 		report.Scenario{Name: "admission/update", Body: func(r *explore.Run) { updateBody(r, rep) }},
 		report.Scenario{Name: "reconcile", Body: func(r *explore.Run) { reconcileBody(r, rep) }},
 		report.Scenario{Name: "recreate", Body: func(r *explore.Run) { recreateBody(r, rep) }},
+		report.Scenario{Name: "interleave", Body: func(r *explore.Run) { interleaveBody(r, rep) }},
 	)
 	// Interleave so that round-robin dealing balances shards.
 	sort.SliceStable(list, func(i, j int) bool { return report.Hash(list[i].Name) < report.Hash(list[j].Name) })
@@ -92,6 +93,7 @@ func TestCheck(t *testing.T) {
 	rep.Bound("machinery_like_status_keys", strings.Join(statusCollisionKeys, ","))
 	rep.Bound("claim_name_variants", nClaims)
 	rep.Bound("update_pair_set", len(variants))
+	rep.Bound("rival_xrd_interleaving", fmt.Sprintf("contended CRD{composite,claim} x CRD before{absent,uncontrolled} x rival reconciles before API call 1..%d of the first reconcile or after it", interleaveMaxPoint))
 	if thorough {
 		rep.Bound("schema_feature_product", "spec x status x collision-style{2} x nameMax{-,30,100,63} x required{4} x CEL{5} x oneOf x preserve x descriptions x top-level-extras x typeless-properties")
 		rep.Bound("xrd_level_product", "layout{10} x per-version schema{plain,rich,nil,malformed,{}} x claim{9} x deletePolicy{3} x updatePolicy{3} x conversion{3} x extras{2}")
